@@ -136,7 +136,8 @@ def match_known(known, pid, unit, oname):
     for k in known:
         if k.get("status") != "known":
             continue
-        if k["property"] == pid and k["obligation"] == oname and k.get("unit", unit) == unit:
+        if k["property"] == pid and k.get("unit", unit) == unit and (k.get("obligation") == oname or
+                                                                    (k.get("obligation_prefix") and oname.startswith(k["obligation_prefix"]))):
             return k
     return None
 
